@@ -19,6 +19,9 @@ const ID: &str = "C09";
 pub fn names() -> Vec<String> {
     let mut v: Vec<String> = BUILTIN_NAMES.iter().map(|s| s.to_string()).collect();
     v.extend(["foo", "math::foo", "str::nothing"].iter().map(|s| s.to_string()));
+    // names that differ from a builtin only in letter case, in a missing or doubled namespace, or in an
+    // added character: none of them is a builtin
+    v.extend(["MAX", "Len", "TypeOf", "math::Sqrt", "STR::from", "Math::abs", "sqrt", "from", "math::max", "str::len", "max_", "_len", "math::", "::len"].iter().map(|s| s.to_string()));
     v
 }
 
@@ -35,6 +38,8 @@ fn call_forms(n: &str) -> Vec<(&'static str, String, Ast)> {
         ("n x string", format!("{} \"ab\"", n), call(n, s())),
         ("n\"ab\" (no gap)", format!("{}\"ab\"", n), call(n, s())),
         ("n x string,tail", format!("{} \"ab\" + \"c\"", n), Ast::Bin(crate::refmodel::ops::BinOp::Add, Box::new(call(n, s())), Box::new(lit(RV::Str("c".into()))))),
+        ("n x ^ y", format!("{} 2 ^ 3", n), Ast::Bin(crate::refmodel::ops::BinOp::Exp, Box::new(call(n, lit(RV::Int(2)))), Box::new(lit(RV::Int(3))))),
+        ("n(x) ^ y", format!("{}(2) ^ 3", n), Ast::Bin(crate::refmodel::ops::BinOp::Exp, Box::new(call(n, lit(RV::Int(2)))), Box::new(lit(RV::Int(3))))),
         ("-n x", format!("-{} 1", n), Ast::Pre(crate::refmodel::ops::UnOp::Neg, Box::new(call(n, one())))),
         ("n x boolean", format!("{} true", n), call(n, lit(RV::Bool(true)))),
         ("n x float", format!("{} 2.5", n), call(n, lit(RV::Float(2.5)))),
@@ -330,7 +335,7 @@ pub fn run(cfg: &Cfg) -> Report {
     Report {
         property: ID,
         level: "model_checking",
-        rule: format!("for each of 52 names (49 builtins, foo, math::foo, str::nothing): every history of length <= {depth} over {{disable builtins, enable, clone-and-continue, clone_from into a used context, clear_functions, clear_variables, define user function n, define failing user function n, bind variable n}} from an empty HashMapContext (contains the complete switch x user-function x variable x {{as built, clone, cleared}} matrix), plus EmptyContext and EmptyContextWithBuiltinFunctions; in every configuration reached, 18 call forms, each evaluated through `Node::eval_with_context` and (HashMapContext) through `Node::eval_with_context_mut` on a clone (`n(x)`, `n x` with int and string (also without a gap before the quote, followed by an operator, and under a prefix minus), `n()`, `n(x, y)`, `n(x, y, z)`, `typeof n x`, `n typeof x`, bare `n`, `n + 1`); oracle: reference resolution (user function first with the documented argument shape, recorded; else builtin table of C10 if enabled; else unknown function) . States = configurations, transitions = evaluations. Non-trivial = configurations reached by >= 2 operations"),
+        rule: format!("for each of 66 names (49 builtins; foo, math::foo, str::nothing; 14 near-builtin names differing in letter case, namespace or one character): every history of length <= {depth} over {{disable builtins, enable, clone-and-continue, clone_from into a used context, clear_functions, clear_variables, define user function n, define failing user function n, bind variable n}} from an empty HashMapContext (contains the complete switch x user-function x variable x {{as built, clone, cleared}} matrix), plus EmptyContext and EmptyContextWithBuiltinFunctions; in every configuration reached, 20 call forms, each evaluated through `Node::eval_with_context` and (HashMapContext) through `Node::eval_with_context_mut` on a clone (`n(x)`, `n x` with int and string (also without a gap before the quote, followed by an operator, and under a prefix minus), `n()`, `n(x, y)`, `n(x, y, z)`, `typeof n x`, `n typeof x`, bare `n`, `n + 1`); oracle: reference resolution (user function first with the documented argument shape, recorded; else builtin table of C10 if enabled; else unknown function) . States = configurations, transitions = evaluations. Non-trivial = configurations reached by >= 2 operations"),
         nontrivial_set: "counter:nontrivial-distinct",
         exhaustive: true,
         bound_completed: format!("histories of length {depth}"),
